@@ -6,7 +6,9 @@ ROOT = os.path.dirname(os.path.dirname(os.path.abspath(__file__)))
 COMMON_NOTE = ('Trusted: Coq 8.16.1 kernel (no axioms: Print Assumptions of every theorem is checked to be closed under the '
                'global context on every run); the hand-written Gallina model of the code, tied to /repo by the differential '
                'correspondence run (extracted OCaml model vs the real API on the same cases, a sample re-evaluated by vm_compute '
-               'inside Coq) and by tools/translate.py for the declarative parts (Gen/*.v regenerated from /repo/src on every run); '
+               'inside Coq), by tools/translate.py for the declarative parts (Gen/*.v regenerated from /repo/src on every run), and - second tie for the '
+               'reader logic - by tools/translate_core.py, which regenerates Gallina definitions of every reader method from the source (coq/core/CoreGen.v) '
+               'that are proved equal to the hand-written model (coq/core/CoreGenP.v, 40 equalities); when that second tie is lost the correspondence run is deepened; '
                'extraction (ExtrOcamlBasic only); the Rust harness. Modelled, not verified: buffer_redux window semantics, memchr, '
                'std iterator adaptors, serde_derive, channel/thread-pool primitives (DESIGN.md section 8).')
 
@@ -223,7 +225,7 @@ def main():
                   'source_commits': [], 'add_only': True},
         'engines': [{'name': 'coq+diff', 'path': 'tools/check',
                      'serves_properties': [c['property_id'] for c in checks],
-                     'kind_free_text': 'Coq 8.16 theorems over a Gallina model (coq/theories) + correspondence check of the extracted model against /repo (harness/), + translator for declarative parts'}],
+                     'kind_free_text': 'Coq 8.16 theorems over a Gallina model (coq/theories) + correspondence check of the extracted model against /repo (harness/) + translators: declarative parts (Gen/*.v) and the reader logic (coq/core, proved equal to the model)'}],
         'checks': checks,
         'notes': 'All checks rebuild the harness from /repo working tree, regenerate Gen/*.v from /repo/src, re-check the Coq development (make decides what to re-prove), and rewrite evidence/<id>.json.',
         'not_applicable': na,
